@@ -94,6 +94,27 @@ pub fn check(prop: &str, scn: &Scenario, rf: &Ref, ex: &Exec) -> Verdict {
                     out.push(f("value", d));
                 }
             }
+            // call-site class for the partially consumed source: positions are absolute, room is relative
+            if scn.pre > 0 {
+                let maponly = scn.ops.iter().all(|o| matches!(o, Op::Map { .. })) && (!scn.ops.is_empty() || scn.src.has_adaptor());
+                let ordered_collect = matches!(scn.term, Term::CollectVec | Term::Collect | Term::CollectInto(_));
+                if maponly && ordered_collect && !scn.is_sequential() {
+                    for x in out.iter_mut() {
+                        if x.key == "panic" {
+                            x.key = "pre-consumed-source/map-only-collect".into();
+                        }
+                    }
+                }
+                // sequential `*_with_index` counts from the first remaining element, the parallel path from
+                // the start of the original source
+                if scn.is_sequential() && matches!(scn.term, Term::FindWithIndex(_) | Term::FirstWithIndex) {
+                    for x in out.iter_mut() {
+                        if x.key == "value" && x.detail.starts_with("with_index") {
+                            x.key = "pre-consumed-source/sequential-with-index".into();
+                        }
+                    }
+                }
+            }
         }
         "C04" => {
             if let Some(v) = returned(ex, &mut out) {
